@@ -297,6 +297,8 @@ CALL_SHAPES = [
     lambda v, w: C("concat", V(v), V(w)),
     lambda v, w: C("echo", L(V(v)), D(("k", V(w)))),
     lambda v, w: C("limit_events", C("concat", V(w), V(v)), I(3)),
+    lambda v, w: L(V(v), D(("k", V(w)))),                  # no call at all: a list / dict text over variables
+    lambda v, w: D(("p", V(v)), ("q", L(V(w), V(v)))),
 ]
 NESTINGS = [
     lambda t, v: t,
@@ -353,18 +355,10 @@ def vars_of(t, out=None):
     return out
 
 
-def has_call(t):
-    k = t[0]
-    if k == "call":
-        return True
-    kids = t[1] if k == "list" else [v for _, v in t[1]] if k == "dict" else []
-    return any(has_call(x) for x in kids)
-
-
 def with_repeat(rng, prog):
     """Any program: one of its expressions that contains a call over variables is evaluated a second time
     (same term object) after some of those variables were rebound."""
-    cands = [(n, e) for n, e in prog[:-1] if has_call(e) and [v for v in vars_of(e) if v not in PREDEF]]
+    cands = [(n, e) for n, e in prog[:-1] if e[0] in ("call", "list", "dict") and [v for v in vars_of(e) if v not in PREDEF]]
     if not cands:
         return None
     n, e = rng.choice(cands)
@@ -543,6 +537,12 @@ def corpus_sessions():
         yield [("main", half), ("main", [("RETURN", src)]), ("A", half), ("A", [("a", src), ("RETURN", V("a"))])]
     q = [("a", sources()[0]), ("STARTTIME", S(WINDOW_EDGES[0])), ("c", sources()[0]), ("RETURN", L(V("a"), V("c")))]
     yield [("A", q), ("main", q), ("A", q), ("main", q)]
+    # nothing a query assigned is there for the next one: variables, RETURN, the query window, shadowed names
+    yield [("main", [("leak", L(I(1))), ("RETURN", V("leak"))]), ("main", [("RETURN", V("leak"))]), ("main", [("x", I(1))]),
+           ("main", [("RETURN", C("echo", V("leak")))]), ("A", [("y", V("RETURN"))])]
+    yield [("main", [("STARTTIME", S(WINDOW_EDGES[1])), ("ENDTIME", S(WINDOW_EDGES[6])), ("true", I(0)), ("RETURN", sources()[0])]),
+           ("main", [("RETURN", L(sources()[0], V("true"), V("STARTTIME"), V("ENDTIME")))]),
+           ("main", [("RETURN", C("query_bucket_eventcount", S("b1")))])]
     yield [("main", [("RETURN", C("query_bucket", S("b2")))]), ("A", [("RETURN", C("query_bucket_eventcount", S("b2")))]),
            ("main", [("RETURN", C("query_bucket_eventcount", S("b2")))])]      # "b2" exists in A only
 
@@ -573,7 +573,10 @@ def g_session(rng):
             qs.append(g_events_prog(rng))
         return [(rng.choice(["main", "A"]), x) for x in qs for _ in range(rng.choice([1, 1, 2]))]
     q = g_prog(rng)
-    return [("main", q), (rng.choice(["main", "A"]), with_repeat(rng, q) or q), ("main", q)]
+    if r < 0.93:
+        return [("main", q), (rng.choice(["main", "A"]), with_repeat(rng, q) or q), ("main", q)]
+    cut = rng.randrange(0, len(q))          # reads what only the earlier query assigned / assigns no RETURN
+    return [("main", q), ("main", q[cut:]), ("main", q[:cut] or q), ("main", q)]
 
 
 LAYOUT_GRID_PROGS = [
